@@ -538,6 +538,24 @@ def frag_event(repo):
 
 FRAGMENTS = {"Time": frag_time, "Event": frag_event}
 
+
+def _discover():
+    """Every translator/frag_*.py contributes its own FRAGMENTS dict (name -> function(repo) -> text)."""
+    import glob
+    import importlib.util
+    here = os.path.dirname(os.path.abspath(__file__))
+    for f in sorted(glob.glob(os.path.join(here, "frag_*.py"))):
+        spec = importlib.util.spec_from_file_location(os.path.basename(f)[:-3], f)
+        m = importlib.util.module_from_spec(spec)
+        spec.loader.exec_module(m)
+        for k, v in getattr(m, "FRAGMENTS", {}).items():
+            if k in FRAGMENTS:
+                raise RuntimeError("duplicate fragment name %s in %s" % (k, f))
+            FRAGMENTS[k] = v
+
+
+_discover()
+
 if __name__ == "__main__":
     import sys
     print(FRAGMENTS[sys.argv[1]](sys.argv[2] if len(sys.argv) > 2 else "/repo"))
